@@ -463,6 +463,8 @@ def _dur_us(ticks: int, frac: int):
 
 
 def gen_trace_set(rng: random.Random, cfg: GenCfg) -> List[RankTrace]:
+    if cfg.n_steps == 0 and cfg.pre_ops == 0 and cfg.post_ops == 0:
+        cfg.pre_ops = 1          # a trace has at least one operator
     return [gen_rank(rng, cfg, r) for r in range(cfg.n_ranks)]
 
 
